@@ -22,6 +22,9 @@
   "native_replay": false,
   "object_bits": 10,
   "timeout": 900,
+  "timeout_thorough": 3000,
+  "mem_gb_thorough": 24,
+  "weight_gb_thorough": 12,
   "mem_gb": 16,
   "weight_gb": 6
 }
